@@ -264,8 +264,10 @@ func (root *Root) addTypes(types ...Type) error {
 			root.dirs.add(t)
 		} else {
 			if root.types.get(name) != nil {
-				// If a scalar, do not replace and do not complain.
-				if t.Rank() == rankScalar {
+				// If a scalar, do not replace and do not complain. That is
+				// for a scalar declared again, not for a scalar that takes
+				// the name of a type of another kind.
+				if t.Rank() == rankScalar && root.types.get(name).Rank() == rankScalar {
 					continue
 				}
 				return fmt.Errorf("%w: %s is already in the schema", ErrDuplicate, name)
